@@ -44,7 +44,13 @@ def load_known():
 def finding_matches(f, prop, ob):
     if f.get('status') != 'open' or f.get('property') != prop:
         return False
-    if f.get('obligation') != ob.name:
+    # the same extracted function can be an obligation of several Verus units (shared include files): the finding names the
+    # function, `verus:*::<fn>` stands for that function in whichever unit it is proved
+    fo = f.get('obligation', '')
+    if fo.startswith('verus:*::'):
+        if not (ob.name.startswith('verus:') and ob.name.split('::', 1)[-1] == fo[len('verus:*::'):]):
+            return False
+    elif fo != ob.name:
         return False
     pat = f.get('match')
     if pat and not re.search(pat, ob.detail + ' ' + ob.reason, re.S):
